@@ -132,6 +132,7 @@ type GenOpts struct {
 	MaxReorg    int
 	Sectors     int                                                              // > 0: contract data mostly whole sectors (World.Sectors)
 	LibProver   bool                                                             // honest proofs over sector files come from the library's provers
+	NoBig       bool                                                             // no transactions with hundreds of inputs or outputs (World.NoBig)
 	StrayProofs bool                                                             // ephemeral v2 parents sometimes carry meaningless Merkle proofs (World.StrayProofs)
 	HugeFiles   bool                                                             // contract formation sometimes commits to a virtual file of up to 2^64-1 bytes (World.Huge)
 	OnBlock     func(g *Gen, b *Builder)                                         // extra actions before Fill (property-specific scenarios); nil: SameBlockScenarios
@@ -154,7 +155,7 @@ type Gen struct {
 func NewGen(t *rapid.T, o GenOpts) *Gen {
 	n, genesis := GenNetwork(t, o.Net)
 	w := NewWorld()
-	w.Sectors, w.LibProver, w.Huge, w.StrayProofs = o.Sectors, o.LibProver, o.HugeFiles, o.StrayProofs
+	w.Sectors, w.LibProver, w.Huge, w.StrayProofs, w.NoBig = o.Sectors, o.LibProver, o.HugeFiles, o.StrayProofs, o.NoBig
 	w.RegisterGenesis()
 	ch, _, err := NewChain(n, genesis)
 	if err != nil {
@@ -306,6 +307,22 @@ func SameBlockScenarios(g *Gen, b *Builder) {
 		b.V1FormThenProve()
 	case 6: // byte-identical data-only transactions, repeated inside the block and across blocks
 		b.DataOnly()
+	case 7: // a payout batch: one transaction with 17..300 outputs
+		if !g.W.NoBig && rapid.IntRange(0, 2).Draw(g.T, "fanout") == 0 {
+			if rapid.Bool().Draw(g.T, "fanAfterV1") {
+				b.AfterV1(func() { b.Fanout() })
+			} else {
+				b.Fanout()
+			}
+		}
+	case 8: // a wallet sweep: one transaction spending every spendable output
+		if !g.W.NoBig && rapid.IntRange(0, 1).Draw(g.T, "sweep") == 0 {
+			if rapid.Bool().Draw(g.T, "sweepAfterV1") {
+				b.AfterV1(func() { b.Sweep() })
+			} else {
+				b.Sweep()
+			}
+		}
 	case 5: // the same contract revised twice (or revised and renewed) inside one block
 		if b.V1Revise() {
 			b.V1ReviseAgainInBlock()
